@@ -19,8 +19,9 @@ EXTENDS Naturals, Sequences, FiniteSets, TLC, Json
 
 Settings == {"style", "match", "case", "getter", "stringer", "typecast"}
 Pos      == {"A", "A1", "A2", "B", "B1"}
-Methods  == {"A1", "A2", "B1"}
-IntfOf(m) == IF m = "B1" THEN "B" ELSE "A"
+Methods  == {"A1", "A2", "B1", "B2"}     \* B2 is promoted into B from an interface that a sibling file declares:
+                                          \* it has no notations of its own (no position), and inherits B's
+IntfOf(m) == IF m \in {"B1", "B2"} THEN "B" ELSE "A"
 Tri      == {"unset", "on", "off"}
 Defaults == [style |-> "off", match |-> "on", case |-> "on", getter |-> "off", stringer |-> "off", typecast |-> "off"]
 Opp(v)   == IF v = "on" THEN "off" ELSE "on"
@@ -40,6 +41,7 @@ Cfg == [focus: Settings, place: [Pos -> Tri], bg: Backgrounds, dup: BOOLEAN]
 \* the notation sequence at a position: background settings first (in a fixed order), then the focus setting
 SettingSeq == <<"style", "match", "case", "getter", "stringer", "typecast">>
 NotesAt(c, p) ==
+  IF p \notin Pos THEN << >> ELSE
   LET bgs == SelectSeq(SettingSeq, LAMBDA s : s # c.focus /\ BgNotes(c.bg, p, s) # "unset")
       bgn == [i \in 1..Len(bgs) |-> [s |-> bgs[i], v |-> BgNotes(c.bg, p, bgs[i])]]
       fv  == c.place[p]
@@ -64,7 +66,7 @@ Init == /\ cfg \in Cfg
         /\ parserOpts = Defaults
         /\ intfOpts = [i \in {"A", "B"} |-> None]
         /\ eff = [m \in Methods |-> None]
-        /\ todo = <<"A", "B", "A1", "A2", "B1">>     \* findConvergenEntries first, then the methods of each entry
+        /\ todo = <<"A", "B", "A1", "A2", "B1", "B2">>     \* findConvergenEntries first, then the methods of each entry
 
 \* findConvergenEntries: opts := p.opts; parse notations into opts; store opts on the entry
 ParseIntf(i) == /\ todo # << >> /\ Head(todo) = i /\ i \in {"A", "B"}
